@@ -79,6 +79,10 @@ RECEIVERS = [
     ("app-ref-qualified", "app", "app: &tauri::AppHandle"),
     ("window-bound-by-let-from-builder", "window", "app0: AppHandle||    let window = tauri::WebviewWindowBuilder::new(&app0, \"aux\", Default::default()).build().unwrap();\n"),
     ("app-bound-by-annotated-let", "app", "owner: Holder||    let app: &AppHandle = owner.handle_ref();\n"),
+    # functions that take nothing and reach the handle through a global (an empty parameter text: the function then has only the
+    # parameters a payload form needs — none for literals, struct expressions and the like)
+    ("method-call-result-on-a-global", "APP_HANDLE.get().unwrap()", ""),
+    ("app-bound-by-let-from-a-global", "app", "||    let app = APP_HANDLE.get().expect(\"set at startup\").clone();\n"),
 ]
 # payload forms: (label, setup statements, expression, extra fn params, expected type tree or None=unknown)
 def payload_forms(rnd):
@@ -193,7 +197,11 @@ def emit_fn(fname, placement, receiver, method, evname, form, is_async=False, re
     if "|" in rparam:
         generics, rparam = rparam.split("|", 1)
     setup = rsetup + setup
-    params = [rparam, "flag: bool", "n: usize"] + ([fparam] if fparam else [])
+    if rparam:
+        params = [rparam, "flag: bool", "n: usize"] + ([fparam] if fparam else [])
+    else:
+        params = [fparam] if fparam else []
+        setup = "    let flag = cfg!(debug_assertions);\n    let n = 3usize;\n" + setup
     needs_try = "?" in ptmpl
     needs_await = ".await" in ptmpl
     ret = " -> Result<(), tauri::Error>" if needs_try or plabel in ("return-expression", "tail-expression") else ""
